@@ -39,6 +39,12 @@ class ExprMixin(ExecBase):
             res = nxt
         return res
 
+    def resolve_import_module(self, mod):
+        """dotted name of an imported repo module (absolute, or relative to the module under contract)"""
+        if mod.split(".")[0] == self.module.dotted.split(".")[0]:
+            return mod
+        return self.module.dotted.rsplit(".", 1)[0] + "." + mod
+
     def spec_eval(self, expr, st, extra=None, old=None):
         """Evaluate a contract expression (string) in state st; returns V. No side effects."""
         node = expr if isinstance(expr, ast.AST) else _parse(expr)
@@ -150,7 +156,31 @@ class ExprMixin(ExecBase):
             return [(st, v)]
         if n in st.ghost:
             return [(st, st.ghost[n])]
+        if self.spec and n in self.function_locals() and n not in self.c.binds and self.local_type_hint(n) is not None:
+            # a clause mentions a local that is not bound yet in this state (e.g. a loop invariant at loop entry about a
+            # variable first assigned in the body): it has to hold for an arbitrary value of the declared type
+            return [(st, self.fresh(self.local_type_hint(n), n + "_unbound"))]
+        if not self.spec and n in self.function_locals():
+            # a local of the function under contract that no statement on this path has bound yet
+            self.fork_raise(st, z3.BoolVal(True), "UnboundLocalError")
+            st.assume(z3.BoolVal(False))
+            return []
         return [(st, self.global_name(n, st))]
+
+    def function_locals(self):
+        fl = getattr(self, "_fn_locals", None)
+        if fl is None:
+            import ast as _ast
+            fl = set()
+            root = getattr(self, "fnode", None)
+            if root is not None:
+                for x in _ast.walk(root):
+                    if isinstance(x, _ast.Name) and isinstance(x.ctx, (_ast.Store, _ast.Del)):
+                        fl.add(x.id)
+                    elif isinstance(x, (_ast.Global, _ast.Nonlocal)):
+                        fl.difference_update(x.names)
+            self._fn_locals = fl
+        return fl
 
     def global_name(self, n, st=None):
         ctx = getattr(self, "spec_ctx", None)
@@ -296,6 +326,15 @@ class ExprMixin(ExecBase):
                 consts = _src.module(th.module).class_attr_consts(th.name)
                 if attr in consts:
                     return [(st, self.py_const(consts[attr]))]      # plain constant class attribute (e.g. OffsetResetStrategy.NONE)
+            if th.kind == "import" and th.module and th.name:
+                # constant attribute of a class imported from another repo module (OffsetCommitRequest.DEFAULT_GENERATION_ID)
+                from . import source as _src
+                try:
+                    consts = _src.module(self.resolve_import_module(th.module)).class_attr_consts(th.name)
+                except Exception:
+                    consts = {}
+                if attr in consts:
+                    return [(st, self.py_const(consts[attr]))]
             if th.kind in ("class", "import", "modattr"):
                 return [(st, V(PYOBJ, PyThing("classattr", owner=th, name=attr)))]
             if th.kind == "selfcls":
